@@ -72,6 +72,7 @@ type Contract struct {
 	CallSites  map[string][]*Clause // function type name -> obligations at dynamic call sites
 	LemmaParams string // lemma: Go parameter list
 	Implements string // interface contract this method must satisfy (behavioural subtyping)
+	GhostInc   [][2]string // ghost counters advanced by every call: (name, parameter)
 	Induction  string // lemma: induction variable
 }
 
@@ -114,7 +115,8 @@ type ContractFile struct {
 	Order     []string
 	Globals   []*Clause // global invariants (`//@ global invariant ...`)
 	Axioms    []*Clause // assumed facts about opaque spec functions (`//@ axiom ...`)
-	TypeInvs  map[string]*Clause // representation invariants: `//@ typeinv T: expr(self)`
+	TypeInvs  map[string]*Clause // representation invariants: `//@ typeinv T [mutable f g]: expr(self)`
+	TypeInvMutable map[string][]string // fields that methods may change after construction
 	Guarded   []GuardDecl
 }
 
@@ -133,7 +135,7 @@ func ParseContracts(path string) (*ContractFile, error) {
 		return nil, err
 	}
 	defer f.Close()
-	cf := &ContractFile{Contracts: map[string]*Contract{}, TypeInvs: map[string]*Clause{}}
+	cf := &ContractFile{Contracts: map[string]*Contract{}, TypeInvs: map[string]*Clause{}, TypeInvMutable: map[string][]string{}}
 	var cur *Contract
 	sc := bufio.NewScanner(f)
 	sc.Buffer(make([]byte, 1<<20), 1<<20)
@@ -200,7 +202,11 @@ func ParseContracts(path string) (*ContractFile, error) {
 			if i < 0 {
 				return nil, fmt.Errorf("%s:%d: typeinv needs `Type: expr`", path, pendingLine)
 			}
-			tn := strings.TrimSpace(rest[:i])
+			hd := strings.Fields(rest[:i])
+			tn := hd[0]
+			if len(hd) > 2 && hd[1] == "mutable" {
+				cf.TypeInvMutable[tn] = hd[2:]
+			}
 			cl := mkClause("typeinv", "inv: "+strings.TrimSpace(rest[i+1:]), pendingLine, &auto)
 			cl.CallType = tn
 			cf.TypeInvs[tn] = cl
@@ -226,6 +232,12 @@ func ParseContracts(path string) (*ContractFile, error) {
 			cur.Props = strings.Fields(rest)
 		case "implements":
 			cur.Implements = rest
+		case "ghostinc":
+			f := strings.Fields(rest)
+			if len(f) != 2 {
+				return nil, fmt.Errorf("%s:%d: ghostinc <name> <parameter>", path, pendingLine)
+			}
+			cur.GhostInc = append(cur.GhostInc, [2]string{f[0], f[1]})
 		case "forall":
 			cur.LemmaParams = rest
 		case "induction":
